@@ -203,9 +203,8 @@ func acquireCtx(req *fasthttp.Request, res *fasthttp.Response) *Ctx {
 	ctx := clientCtxPool.Get().(*Ctx)
 	verifPool("clientctx", ctx, true)
 
-	// Nothing else refers to a Ctx that came out of the pool, so these are
-	// plain writes. A resolve that landed after the last caller stopped reading
-	// would still be sitting in the buffer.
+	// A resolve that landed after the last caller stopped reading would still
+	// be sitting in the buffer.
 	select {
 	case <-ctx.Err:
 	default:
@@ -213,9 +212,16 @@ func acquireCtx(req *fasthttp.Request, res *fasthttp.Response) *Ctx {
 
 	ctx.Request = req
 	ctx.Response = res
-	ctx.streamID = 0
+
+	// A connection may still hold a pointer to a Ctx that has been through the
+	// pool (acquireFor exists for that), and it looks at done and streamID
+	// under lck: they are reset under it as well.
+	ctx.lck.Lock()
+	atomic.StoreUint32(&ctx.streamID, 0)
 	ctx.done = false
 	ctx.gotHeaders = false
+	ctx.lck.Unlock()
+
 	ctx.resolved = false
 	ctx.finished = false
 	ctx.delivered = false
